@@ -232,6 +232,8 @@ def _forms(r, c, force=None):
     if not c["explicit"] and r.random() < 0.3:
         c["mergelast"] = False
     c["api"] = f.get("api") or r.choice(APIS)
+    if c["api"] in ("binner_y", "binner_yw"):
+        c["ypat"] = f.get("ypat") or r.choice(["asc", "desc", "mix"])
     if c["api"] in ("weights", "binner_w", "binner_yw"):
         c["wpat"] = f.get("wpat") or r.choice(["ones", "mod3"])
     c["family"] = c["family"].split("/")[0] + "+forms" + c["family"][len(c["family"].split("/")[0]):]
@@ -333,6 +335,33 @@ def _sequence(r):
     else:                          # two objects of equal length / ends / range in turn, same parameters
         steps = [step(t, "A", d1, p2, hapi()), step(t, "B", d2, p2, hapi()), step(t, "A", d1, p2, bapi()),
                  step(t, "B", d2, p2, bapi()), step(t, "B", d2, p3, bapi(), True), step(t, "A", d1, p2, hapi())]
+    # rejected calls in the middle (empty range, limits in the wrong order, nbin = 0, a negative nbin): whatever a
+    # rejected call leaves behind must not influence the calls after it
+    top = max(float(v) for v in d1 + d2)
+    bot = min(float(v) for v in d1 + d2)
+
+    def reject(like):
+        kind = r.choice(["empty-above", "empty-below", "swapped", "nbin0", "nbin-neg"])
+        p = dict(p2)
+        if kind == "empty-above":
+            p.update(min_raw=top + 1, max_raw=top + 2)
+        elif kind == "empty-below":
+            p.update(min_raw=bot - 2, max_raw=bot - 1)
+        elif kind == "swapped":
+            p.update(min_raw=top + 1, max_raw=bot - 1)
+        elif kind == "nbin0":
+            p.update(mode="nbin", spec=0)
+        else:
+            p.update(mode="nbin", spec=-r.choice([1, 3]))
+        c = step(t, like["obj"], [_num(v) for v in like["data"]], p, like["api"], bool(like.get("reuse")))
+        c["family"] = "seq:%s+rejected/%s/x" % (t, p["mode"])
+        return c
+    k = 1
+    while k < len(steps):
+        if r.random() < 0.45:
+            steps.insert(k, reject(steps[k]))
+            k += 1
+        k += 1
     out = []
     for i, c in enumerate(steps):
         c = dict(c)
@@ -480,6 +509,17 @@ def _adversarial(r):
                 for api in ("weights", "binner_w"):
                     cs.append(mk(dtype="f8", container="list", api=api, wpat=wpat, explicit=False))
     cs += _special(r)
+    # heavy ties in x with a second variable / weights that are not sorted within the ties (ties stay in original order)
+    for d, dt in (([2, 1, 2, 1, 2, 1, 1, 2], "i8"), ([0.5, 0.5, 0.5, 0.5], "f8"), ([3, 3, 1, 1, 2, 2, 3, 1, 2], "i4"),
+                  ([1.5, 0.5, 1.5, 2.5, 0.5, 1.5, 2.5, 2.5, 0.5, 1.5], "f8"), ([7, 7], "i8")):
+        for api in ("binner_y", "binner_yw", "binner_w", "weights"):
+            for ypat in ("desc", "mix"):
+                for mode, spec, lo, hi in (("nbin", 2, None, None), ("binsize", 1, None, None), ("nbin", 3, 1, None)):
+                    c = _case(r, "adv:ties-y/%s/x" % mode, d, dt, mode, spec, lo, hi, api=api)
+                    c["ypat"] = ypat
+                    c["wpat"] = "mod3" if ypat == "mix" else "ones"
+                    c["container"] = r.choice(["ndarray", "list"]) if dt == "f8" else "ndarray"
+                    cs.append(c)
     # max - min overflows (nbin mode: binsize = inf, data with an overflowed difference are not counted; binsize mode:
     # rejected), and an infinite bin size given by the caller
     big = float.fromhex("0x1.ep1023")
@@ -548,7 +588,7 @@ class Hist(Entry):
         cs = []
         if round == 0:
             cs += _adversarial(ctx.rng)
-        cs += _random(ctx, ctx.n(1000, 6000), ctx.n(200, 400))
+        cs += _random(ctx, ctx.n(850, 6000), ctx.n(200, 400))
         if round == 0:
             cs += _random(ctx, ctx.n(4, 24), ctx.n(1000, 2000))          # a few long arrays
             for n, kind, cut in ctx.n([(4097, "descending", False), (1025, "ascending", True)],
@@ -652,6 +692,18 @@ class Hist(Entry):
                 wts = float(wts[0])
         return kw, wts
 
+    @staticmethod
+    def _yvals(np, c, n, cont):
+        """the second variable: increasing, decreasing, or scrambled with repeats (never sorted within ties of x)"""
+        if n == 1 and cont in ("scalar", "zerod"):
+            return 0.0
+        pat = c.get("ypat") or "asc"
+        if pat == "desc":
+            return -np.arange(n, dtype="f8")
+        if pat == "mix":
+            return np.array([float((i * 7 + 3) % 5) - 0.5 * (i % 2) for i in range(n)])
+        return np.arange(n, dtype="f8")
+
     def _call(self, np, st, c, state):
         data, cont = self._materialize(np, c, state)
         kw, wts = self._kwargs(np, c, cont)
@@ -670,14 +722,13 @@ class Hist(Entry):
             elif api == "weights":
                 b = st.histogram(data, weights=wts, rev=True, **kw)
             elif api == "binner_y":           # a second variable forces the reverse indices
-                b = st.Binner(data, y=np.arange(n, dtype="f8") if n != 1 or cont not in ("scalar", "zerod") else 0.0)
+                b = st.Binner(data, y=self._yvals(np, c, n, cont))
                 b.dohist(rev=False, calc_stats=False, **kw)
             elif api == "binner_w":
                 b = st.Binner(data, weights=wts)
                 b.dohist(rev=False, calc_stats=False, **kw)
             elif api == "binner_yw":          # second variable and weights together
-                b = st.Binner(data, y=np.arange(n, dtype="f8") if n != 1 or cont not in ("scalar", "zerod") else 0.0,
-                              weights=wts)
+                b = st.Binner(data, y=self._yvals(np, c, n, cont), weights=wts)
                 b.dohist(rev=False, calc_stats=False, **kw)
             elif api == "binner_twice":       # the same object used before with another specification
                 b = st.Binner(data)
